@@ -482,8 +482,18 @@ def rule_mro(chk):
         # the extractor selected is the one registered for that class
         regs = [x for x in iter_own_nodes(g.node) if isinstance(x, ast.Subscript) and unparse(x.value) == "self.registry" and isinstance(x.ctx, ast.Load)]
         gets = [x for x in iter_own_nodes(g.node) if isinstance(x, ast.Call) and isinstance(x.func, ast.Attribute) and x.func.attr == "get" and unparse(x.func.value) == "self.registry"]
-        chk.req((bool(regs) or bool(gets)) and all(isinstance(x.slice, ast.Name) and x.slice.id == lv for x in regs)
-                and all(x.args and isinstance(x.args[0], ast.Name) and x.args[0].id == lv for x in gets), "C03.mro",
+        # names that hold the class found: the loop variable itself, or a local every binding of which is the loop variable
+        # (set where the membership test succeeded) or None (nothing found)
+        found_names = {lv}
+        for nm_ in {y.id for y in iter_own_nodes(g.node) if isinstance(y, ast.Name) and isinstance(y.ctx, ast.Store)}:
+            vals_ = assigned_values(g, nm_)
+            if vals_ and all(v_ is not None and ((isinstance(v_, ast.Name) and v_.id == lv) or (isinstance(v_, ast.Constant) and v_.value is None)) for v_ in vals_) \
+                    and any(isinstance(v_, ast.Name) for v_ in vals_):
+                asg_ = [x for x in cfg.live if isinstance(x.ast, ast.Assign) and isinstance(x.ast.targets[0], ast.Name) and x.ast.targets[0].id == nm_ and isinstance(x.ast.value, ast.Name)]
+                if all(any(cfg.edge_dominates(t, "true", a_) for t in tests) for a_ in asg_):
+                    found_names.add(nm_)
+        chk.req((bool(regs) or bool(gets)) and all(isinstance(x.slice, ast.Name) and x.slice.id in found_names for x in regs)
+                and all(x.args and isinstance(x.args[0], ast.Name) and x.args[0].id in found_names for x in gets), "C03.mro",
                 "get_fields_for_exception:extractor-of-that-class", chk.where(g, head.lineno), good="self.registry[%s]" % lv,
                 fail="the extractor used is not the one registered for the class found")
     # no stale memoisation: state written on the lookup path must be fully invalidated on registration
